@@ -127,6 +127,37 @@ def check(ck):
     ck.require(okk, "C17.3", "%s: an empty read leaves the loop" % q.fn(fp), "`if not %s: break`" % rv,
                "an empty read (peer closed the connection before sending Content-Length bytes) does not leave the read loop: the handler "
                "spins forever on EOF", q.loc(fp, reads[0]))
+    # every read of the request stream belongs to that loop, and the remaining size only shrinks by what was actually read
+    stray = [c for c in ast.walk(fp.node) if isinstance(c, ast.Call) and call_name(c) in ("read", "read1", "readinto", "readline", "readlines")
+             and "rfile" in dump(c.func) and not any(sub is c for sub in ast.walk(loop))]
+    ck.require(not stray, "C17.3", "%s: every read of the request body is in the accumulation loop" % q.fn(fp), "no read outside the loop",
+               "`%s` reads the body outside the loop that re-checks how much is still missing: a single read may return fewer bytes than "
+               "asked (slow client, unbuffered stream), the rest of the body is then dropped or the cut falls inside a multi-byte character"
+               % (dump(stray[0])[:60] if stray else ""), q.loc(fp, stray[0]) if stray else "")
+    cvar = dump(loop.test) if isinstance(loop.test, ast.Name) else None
+    if cvar is None and isinstance(loop.test, ast.Compare) and isinstance(loop.test.left, ast.Name):
+        cvar = loop.test.left.id
+    if cvar is None:
+        raise AnalysisError("anchor vanished: the remaining-size variable of the read loop in do_POST (`while %s`)" % dump(loop.test))
+    wr = [x for x in ast.walk(fp.node) if (isinstance(x, ast.Assign) and any(isinstance(t, ast.Name) and t.id == cvar for t in x.targets)) or
+          (isinstance(x, ast.AugAssign) and isinstance(x.target, ast.Name) and x.target.id == cvar)]
+    def _from_header(x):
+        if "content-length" in dump(x.value).lower():
+            return True
+        for n_ in gl.live_nodes():
+            if n_.kind == "stmt" and n_.ast is x:
+                t_ = prov.origin(gl, n_, x.value)
+                return prov.contains(t_, lambda y: y[0] == "const" and "content-length" in str(y[1]).lower())
+        return False
+    init_w = [x for x in wr if isinstance(x, ast.Assign) and not any(sub is x for sub in ast.walk(loop)) and _from_header(x)]
+    dec_w = [x for x in wr if isinstance(x, ast.AugAssign) and isinstance(x.op, ast.Sub) and dump(x.value) == "len(%s)" % rv and any(sub is x for sub in ast.walk(loop))]
+    dec_w += [x for x in wr if isinstance(x, ast.Assign) and isinstance(x.value, ast.BinOp) and isinstance(x.value.op, ast.Sub) and
+              dump(x.value.left) == cvar and dump(x.value.right) == "len(%s)" % rv and any(sub is x for sub in ast.walk(loop))]
+    other_w = [x for x in wr if x not in init_w and x not in dec_w]
+    ck.require(len(init_w) == 1 and len(dec_w) == 1 and not other_w, "C17.3", "%s: remaining size = Content-Length minus the bytes read" % q.fn(fp),
+               "`%s -= len(%s)` only" % (cvar, rv),
+               "the remaining size `%s` is also changed by `%s`: the loop no longer accounts for what the reads actually returned"
+               % (cvar, dump(other_w[0])[:50] if other_w else "nothing (no decrement by the length read)"), q.loc(fp, other_w[0] if other_w else loop))
     ft = prog.func("jsonrpc", "JSONTarget.feed")
     fc = prog.func("jsonrpc", "JSONTarget.close")
     dec_feed = [c for c in ast.walk(ft.node) if isinstance(c, ast.Call) and call_name(c) in DECODERS]
@@ -217,6 +248,26 @@ def check(ck):
                 ck.require(isinstance(sp, shape.K) and sp.v == path, "C17.4", "%s: socket path for %s" % (q.fn(finit), label), "the URL path %r" % path,
                            "for %s the Unix transport is given the socket path %r, not the URL's path %r" % (label, sp, path), q.loc(finit, finit.node))
     ck.stat("url_cases", n4)
+    # ... and the transport hands that target on unchanged, down to the request line
+    fsr = prog.func("jsonrpc", "TransportMixIn.send_request")
+    fsg = prog.func("jsonrpc", "TransportMixIn.single_request")
+    gsr, gsg = cfg_of(fsr), cfg_of(fsg)
+    prq = [(n, c) for n in gsr.live_nodes() for c in node_calls(n) if call_name(c) == "putrequest"]
+    if not prq:
+        raise AnalysisError("anchor vanished: putrequest in TransportMixIn.send_request")
+    for (n, c) in prq:
+        t = prov.origin(gsr, n, c.args[1]) if len(c.args) > 1 else None
+        ck.require(t == ("param", "handler"), "C17.4", "%s: `%s`" % (q.fn(fsr), dump(c)[:50]), "request line carries the handler it was given",
+                   "the request target written on the request line is %s, not the handler the transport was given: the URL's path and query do "
+                   "not reach the wire unchanged (dot segments, escapes or the query can be rewritten)" % (prov.show(t)[:60] if t else "missing"),
+                   q.loc(fsr, n))
+    srq = [(n, c) for n in gsg.live_nodes() for c in node_calls(n) if dump(c.func) == "self.send_request"]
+    if not srq:
+        raise AnalysisError("anchor vanished: self.send_request(...) in single_request")
+    for (n, c) in srq:
+        t = prov.origin(gsg, n, c.args[1]) if len(c.args) > 1 else (prov.origin(gsg, n, kwarg(c, "handler")) if kwarg(c, "handler") is not None else None)
+        ck.require(t == ("param", "handler"), "C17.4", "%s: `%s`" % (q.fn(fsg), dump(c)[:50]), "handler forwarded unchanged",
+                   "single_request passes %s to send_request instead of the handler it was given" % (prov.show(t)[:60] if t else "nothing"), q.loc(fsg, n))
     ck.floor("C17.4", 20)
     ck.floor("C17.5", 30)
 
